@@ -30,6 +30,12 @@ fn q_names(obj: &Obj, rng: &mut Rng) -> Vec<Vec<u8>> {
 
 /// A random, mostly well-formed object exercising every kind of section the crate understands.
 pub fn rand_object(rng: &mut Rng, rich: bool) -> FileCase {
+    rand_object_kind(rng, rich, false)
+}
+
+/// `full`: every kind of section is present (symtab, dynsym, both hash tables, versions, dynamic,
+/// relocations, notes) and the section headers are in a random order.
+pub fn rand_object_kind(rng: &mut Rng, rich: bool, full: bool) -> FileCase {
     let is64 = rng.below(2) == 0;
     let le = rng.below(2) == 0;
     let mut o = Obj::new(is64, le);
@@ -42,7 +48,7 @@ pub fn rand_object(rng: &mut Rng, rich: bool) -> FileCase {
     let mut kinds: Vec<&'static str> = vec![];
     let mut hash_queries: Vec<Vec<u8>> = vec![];
     let mut versym_len = 0usize;
-    let want = |rng: &mut Rng, p: u64| rich && rng.chance(p, 10) || !rich && rng.chance(p, 25);
+    let want = |rng: &mut Rng, p: u64| full || rich && rng.chance(p, 10) || !rich && rng.chance(p, 25);
 
     if rng.chance(9, 10) {
         // .text with a name that is a prefix of another section's name
@@ -92,8 +98,8 @@ pub fn rand_object(rng: &mut Rng, rich: bool) -> FileCase {
     if want(rng, 7) {
         // .dynsym + .dynstr (+ .hash, .gnu.hash, versions)
         let nn = rng.below(14) as usize;
-        let use_gnu = rng.chance(2, 3);
-        let use_sysv = rng.chance(1, 2);
+        let use_gnu = full || rng.chance(2, 3);
+        let use_sysv = full || rng.chance(1, 2);
         let (names, symtab, strtab, gnu_hash) = if use_gnu {
             let nbucket = rng.range(1, 5) as u32;
             let nbloom = *rng.pick(&[1u32, 2, 4]);
@@ -151,9 +157,24 @@ pub fn rand_object(rng: &mut Rng, rich: bool) -> FileCase {
                 o.add_sec(s);
             }
             if !m.defs.is_empty() || rng.chance(1, 3) {
-                let mut s = Sec::new(b".gnu.version_d", SHT_GNU_VERDEF, build_verdef(le, &m.defs, &str_off, inter, gap));
-                s.link = dsi as u32; s.info = m.defs.len() as u32; s.addralign = 4;
-                o.add_sec(s);
+                if rng.chance(1, 3) {
+                    // the definitions' names live in their own string table (sh_link differs from VERNEED's)
+                    let mut own = vec![0u8];
+                    let pl = rng.range(1, 9) as usize;
+                    own.extend((0..pl).map(|_| *rng.pick(b"qrstuv")));
+                    own.push(0);
+                    let base2 = own.len() as u32;
+                    own.extend(&m.strtab);
+                    let vsi = o.add_sec(Sec::new(b".verstr", SHT_STRTAB, own));
+                    let str_off2 = |s: &[u8]| -> u32 { m.str_offs.iter().find(|(n, _)| n == s).map(|x| x.1 + base2).unwrap_or(0) };
+                    let mut s = Sec::new(b".gnu.version_d", SHT_GNU_VERDEF, build_verdef(le, &m.defs, &str_off2, inter, gap));
+                    s.link = vsi as u32; s.info = m.defs.len() as u32; s.addralign = 4;
+                    o.add_sec(s);
+                } else {
+                    let mut s = Sec::new(b".gnu.version_d", SHT_GNU_VERDEF, build_verdef(le, &m.defs, &str_off, inter, gap));
+                    s.link = dsi as u32; s.info = m.defs.len() as u32; s.addralign = 4;
+                    o.add_sec(s);
+                }
             }
             kinds.push("symver");
         }
@@ -178,6 +199,12 @@ pub fn rand_object(rng: &mut Rng, rich: bool) -> FileCase {
             o.segs.push(Seg { p_type: PT_DYNAMIC, flags: 6, sec: Some(di), offset: 0, filesz: 0, memsz: u64::MAX, vaddr: 0, paddr: 0, align: 8 });
         }
         kinds.push("dynamic");
+    }
+    if !kinds.contains(&"dynamic") && o.secs.len() > 1 && rng.chance(1, 5) {
+        // a PT_DYNAMIC segment without any SHT_DYNAMIC section (the segment covers some other section's bytes)
+        let si = rng.range(1, o.secs.len() as u64 - 1) as usize;
+        o.segs.push(Seg { p_type: PT_DYNAMIC, flags: 6, sec: Some(si), offset: 0, filesz: 0, memsz: u64::MAX, vaddr: 0, paddr: 0, align: 8 });
+        kinds.push("ptdyn-only");
     }
     if want(rng, 4) {
         let n = rng.below(5) as usize;
@@ -223,9 +250,15 @@ pub fn rand_object(rng: &mut Rng, rich: bool) -> FileCase {
         z.off_override = Some(rng.below(64));
         o.add_sec(z);
     }
+    if o.secs.len() > 2 && (full || rng.chance(1, 2)) {
+        // any order of the section headers (links and segment references follow)
+        let mut perm: Vec<usize> = (1..o.secs.len()).collect();
+        for i in (1..perm.len()).rev() { let j = rng.below(i as u64 + 1) as usize; perm.swap(i, j); }
+        o.permute_secs(&perm);
+    }
     let name_off = if !o.secs.is_empty() && rng.chance(19, 20) { o.finish_names() } else { vec![0; o.secs.len()] };
-    if rng.chance(1, 12) { o.no_shdrs = true; }
-    if rng.chance(1, 12) { o.no_phdrs = true; }
+    if !full && rng.chance(1, 12) { o.no_shdrs = true; }
+    if !full && rng.chance(1, 12) { o.no_phdrs = true; }
     if rng.chance(1, 8) && !o.secs.is_empty() { o.ext_shnum = true; }
     if rng.chance(1, 8) && !o.secs.is_empty() { o.ext_shstrndx = true; }
     if rng.chance(1, 8) && !o.secs.is_empty() && !o.segs.is_empty() { o.ext_phnum = true; }
@@ -304,6 +337,14 @@ pub fn gen_file(rng: &mut Rng, n: usize, thorough: bool) -> Vec<Case> {
             let (b, what) = corrupt(rng, &fc);
             out.push((format!("file any {} {}", q, hex(&b)), format!("clean=0|corrupt={}", what)));
         }
+    }
+    // objects holding every kind of section, headers in random order
+    for _ in 0..n / 6 + 8 {
+        let fc = rand_object_kind(rng, true, true);
+        let q = fc.queries.join(",");
+        out.push((format!("file any {} {}", q, hex(&fc.built.bytes)), truth_ann(&fc, true)));
+        let (b, what) = corrupt(rng, &fc);
+        out.push((format!("file any {} {}", q, hex(&b)), format!("clean=0|corrupt={}", what)));
     }
     // random bytes behind a valid ident
     for _ in 0..n / 4 + 4 {
